@@ -569,6 +569,9 @@ pub struct PollRun<F: Family> {
     pub resumed_after_error: u32,
     /// a poll in which the transport reported a transient failure did not return that failure
     pub transient_not_surfaced: Option<String>,
+    /// what the caller-held state holds when the decoder has finished, if it is a Body state:
+    /// (bytes received so far, i.e. buf[..idx]; length of the buffer)
+    pub final_body: Option<(Vec<u8>, usize)>,
 }
 
 /// Runs the poll decoder by hand over a scripted transport.
@@ -680,6 +683,14 @@ pub fn dec_poll_styled<F: Family>(
     };
     let _ = &cx;
     let final_state_is_header = matches!(state, GenericPollPacketState::Header(_));
+    let final_body = match &state {
+        GenericPollPacketState::Body(b) if b.buf.len() <= (64 << 20) => {
+            // only the first idx bytes have been written by the transport; nothing beyond them is read here
+            let k = b.idx.min(b.buf.len());
+            Some((b.buf[..k].iter().map(|x| unsafe { x.assume_init() }).collect::<Vec<u8>>(), b.buf.len()))
+        }
+        _ => None,
+    };
     PollRun {
         result: result.map(|(total, buf, pkt)| PollOk { total, body: body_bytes(buf), pkt }),
         pos: reader.pos,
@@ -690,6 +701,7 @@ pub fn dec_poll_styled<F: Family>(
         final_state_is_header,
         resumed_after_error,
         transient_not_surfaced,
+        final_body,
     }
 }
 
